@@ -4,8 +4,15 @@
 //! trusted: R15 (deep slice): the classification block of process_onion_failure_inner (from reading the code's debug field to the FailureLearnings value) verbatim as a function of (error_code, is_from_final_non_blinded_node, route_hop, failing_route_hop, err_packet); peeling the failure onion, the HMAC test and attribution-data handling before it are dropped and not claimed here (hold times: unit u14b)
 //! trusted: env: LocalHTLCFailureReason is a three-variant skeleton (the two variants the block names + Other(code)); its predicates is_badonion / is_node / is_permanent / is_temporary / is_recipient_failure / get_onion_debug_field are external_body with unconstrained answers (any code table); ErrorHop / RouteHop / TrampolineHop / FailureLearnings are the function-local types re-declared (ErrorHop::{pubkey, short_channel_id} external_body with the bodies' meaning); NetworkUpdate is extracted; PublicKey opaque Copy; R3: log statements removed; R8: `v.get(a..b)` on the failure message -> get_range (Some iff a <= b <= len), `u16::from_be_bytes(s.try_into().expect(..))` -> be16 (unconstrained value)
 //! assume: the path has no trampoline hops: the hop that sent the failure and the failing hop are ErrorHop::RouteHop; when the failure is from the final node the failing hop is that hop (how the caller chooses failing_route_hop)
+//! trusted: assume_specification for core::cmp::max / core::cmp::min (std definitions): present in every unit so that a change that introduces them is verified instead of being rejected by the tool
 use vstd::prelude::*;
 verus! {
+use vstd::std_specs::cmp::*;
+use core::cmp;
+pub assume_specification<T: core::cmp::Ord>[core::cmp::max::<T>](a: T, b: T) -> (r: T)
+    ensures T::obeys_cmp_spec() ==> r == (if b.cmp_spec(&a) == core::cmp::Ordering::Less { a } else { b });
+pub assume_specification<T: core::cmp::Ord>[core::cmp::min::<T>](a: T, b: T) -> (r: T)
+    ensures T::obeys_cmp_spec() ==> r == (if b.cmp_spec(&a) == core::cmp::Ordering::Less { b } else { a });
 #[derive(Clone, Copy)] pub struct PublicKey(pub u64);
 //@extract lightning/src/routing/gossip.rs :: enum NetworkUpdate
 //@end
